@@ -334,6 +334,9 @@ pub const ARGS: &[&str] = &[
     "int[],java.lang.String[]",
     // sorts before "android.view.View" + ')' when name and params are concatenated
     "android.view.View$OnClickListener",
+    // mixed spelling with and without blanks: "int, long" < "int,byte" raw, but > once blanks are stripped
+    "int, long",
+    "int,byte",
 ];
 
 pub const RET_TYPES: &[&str] =
